@@ -842,6 +842,46 @@ pub fn gen_c07(rng: &mut Rng, thorough: bool) -> History {
         let (w, h) = em.dims(si);
         let identity = is_identity(&em.shadows[si].ctm);
         let open = em.shadows[si].brackets.len();
+        if rng.chance(1, 40) {
+            // An episode under an extreme uniform scale, with all user-space lengths divided by
+            // it: the device-space geometry is what it would be under the identity (inside the
+            // stated range), while determinant, inverse and every "scaled by the transform"
+            // quantity inside the library overflow or underflow. Solid sources only (the
+            // fixed-point coordinates of images and gradients are C13's domain). The exponent is
+            // bounded by 40: beyond roughly 2^60 the squares of user-space lengths leave the
+            // range of f32 altogether (an endless loop in the dasher was seen at 2^-91, where a
+            // segment's length evaluates to infinity - recorded in DESIGN.md, not explored).
+            let k = if rng.chance(1, 2) { rng.range(14, 40) } else { -rng.range(14, 40) };
+            let sc = (2.0f32).powi(k);
+            em.push(si, Op::SetTransform(mk::unmat(&raqote::Transform::scale(sc, sc))));
+            let m = 1 + rng.usize(3);
+            for _ in 0..m {
+                let solid = |rng: &mut Rng| SrcSpec { kind: gen_solid(rng), pre: None, user_xf: None };
+                let mut op = match rng.below(5) {
+                    0 | 1 => {
+                        let path = c07_path(rng, w, h, false);
+                        let style = c07_style(rng, &path, false);
+                        Op::Stroke { path, src: solid(rng), style, opts: c07_opts(rng) }
+                    }
+                    2 => Op::Fill { path: c07_path(rng, w, h, false), src: solid(rng), opts: c07_opts(rng) },
+                    3 => {
+                        let x = c07_coord(rng, w, false);
+                        let y = c07_coord(rng, h, false);
+                        Op::FillRect { rect: [F(x), F(y), F(rng.f32_in(-40., 40.)), F(rng.f32_in(-40., 40.))], src: solid(rng), opts: c07_opts(rng) }
+                    }
+                    _ => {
+                        if em.shadows[si].clip_depth() >= 4 {
+                            continue;
+                        }
+                        Op::PushClip(c07_path(rng, w, h, false))
+                    }
+                };
+                scale_geometry(&mut op, 1. / sc);
+                em.push(si, op);
+            }
+            em.push(si, Op::SetTransform(mat_identity()));
+            continue;
+        }
         let op = match rng.below(20) {
             0 | 1 => Op::SetTransform(c07_transform(rng)),
             2 => {
@@ -940,26 +980,51 @@ pub fn gen_c07(rng: &mut Rng, thorough: bool) -> History {
 /// working range the statement gives (a NaN coordinate is *outside* C07's domain; reporting what
 /// happens there would be a false alarm). Such a history is skipped and counted.
 fn c07_in_domain(h: &History) -> bool {
-    let ok = |v: f32| v.is_finite() && v.abs() <= 4000.;
-    let path_ok = |p: &PathSpec| {
-        p.segs.iter().all(|s| match s {
-            Seg::M(x, y) | Seg::L(x, y) => ok(x.0) && ok(y.0),
-            Seg::Q(a, b, c, d) => ok(a.0) && ok(b.0) && ok(c.0) && ok(d.0),
-            Seg::C(a, b, c, d, e, g) => ok(a.0) && ok(b.0) && ok(c.0) && ok(d.0) && ok(e.0) && ok(g.0),
-            Seg::Z => true,
-            Seg::Arc(x, y, r, a0, sw) => ok(x.0) && ok(y.0) && ok(r.0) && a0.0.is_finite() && sw.0.is_finite(),
-            Seg::Rect(x, y, w, hh) => ok(x.0) && ok(y.0) && ok(x.0 + w.0) && ok(y.0 + hh.0),
-        })
-    };
-    h.steps.iter().all(|s| match &s.op {
-        Op::Fill { path, .. } | Op::PushClip(path) | Op::PathQuery { path, .. } => path_ok(path),
-        Op::Stroke { path, style, .. } => path_ok(path) && style.dash_array.iter().all(|d| !d.0.is_infinite()),
-        Op::FillRect { rect, .. } => ok(rect[0].0) && ok(rect[1].0) && ok(rect[0].0 + rect[2].0) && ok(rect[1].0 + rect[3].0),
-        Op::SetTransform(m) => m.iter().all(|v| v.0.is_finite()),
-        Op::DrawImageAt { x, y, .. } => ok(x.0) && ok(y.0),
-        Op::DrawImageSized { w, h: hh, x, y, .. } => ok(x.0) && ok(y.0) && ok(w.0) && ok(hh.0),
-        _ => true,
-    })
+    // device space: the user-space point mapped by the transform in force (f64)
+    let mut ctm: Vec<Mat> = h.surfaces.iter().map(|_| mat_identity()).collect();
+    for s in &h.steps {
+        if s.surf >= ctm.len() {
+            continue;
+        }
+        let t = ctm[s.surf];
+        let dev = |x: f32, y: f32| -> bool {
+            let (x, y) = (x as f64, y as f64);
+            let px = x * t[0].0 as f64 + y * t[2].0 as f64 + t[4].0 as f64;
+            let py = x * t[1].0 as f64 + y * t[3].0 as f64 + t[5].0 as f64;
+            px.is_finite() && py.is_finite() && px.abs() <= 4000.5 && py.abs() <= 4000.5
+        };
+        let user = |x: f32, y: f32| x.is_finite() && y.is_finite() && x.abs() <= 4000. && y.abs() <= 4000.;
+        let path_ok = |p: &PathSpec, ok: &dyn Fn(f32, f32) -> bool| {
+            p.segs.iter().all(|s| match s {
+                Seg::M(x, y) | Seg::L(x, y) => ok(x.0, y.0),
+                Seg::Q(a, b, c, d) => ok(a.0, b.0) && ok(c.0, d.0),
+                Seg::C(a, b, c, d, e, g) => ok(a.0, b.0) && ok(c.0, d.0) && ok(e.0, g.0),
+                Seg::Z => true,
+                Seg::Arc(x, y, r, a0, sw) => {
+                    a0.0.is_finite() && sw.0.is_finite() && r.0.is_finite() && ok(x.0 - r.0, y.0 - r.0) && ok(x.0 + r.0, y.0 - r.0) && ok(x.0 - r.0, y.0 + r.0) && ok(x.0 + r.0, y.0 + r.0)
+                }
+                Seg::Rect(x, y, w, hh) => ok(x.0, y.0) && ok(x.0 + w.0, y.0) && ok(x.0, y.0 + hh.0) && ok(x.0 + w.0, y.0 + hh.0),
+            })
+        };
+        let ok = match &s.op {
+            Op::Fill { path, .. } | Op::PushClip(path) => path_ok(path, &dev),
+            // hit testing and flattening do not look at the transform
+            Op::PathQuery { path, .. } => path_ok(path, &user),
+            Op::Stroke { path, style, .. } => path_ok(path, &dev) && style.dash_array.iter().all(|d| !d.0.is_infinite()),
+            Op::FillRect { rect, .. } => dev(rect[0].0, rect[1].0) && dev(rect[0].0 + rect[2].0, rect[1].0) && dev(rect[0].0, rect[1].0 + rect[3].0) && dev(rect[0].0 + rect[2].0, rect[1].0 + rect[3].0),
+            Op::SetTransform(m) => m.iter().all(|v| v.0.is_finite()),
+            Op::DrawImageAt { x, y, .. } => dev(x.0, y.0),
+            Op::DrawImageSized { w, h: hh, x, y, .. } => dev(x.0, y.0) && dev(x.0 + w.0, y.0 + hh.0),
+            _ => true,
+        };
+        if !ok {
+            return false;
+        }
+        if let Op::SetTransform(m) = &s.op {
+            ctm[s.surf] = *m;
+        }
+    }
+    true
 }
 
 pub fn run_c07(h: &History, st: &mut Stats) -> Outcome {
